@@ -7,11 +7,12 @@
    SpatialVector.__getitem__) and e8a8671 (extend uses iterable.data) the slice and extend theorems are FULL STRENGTH
    (no guard, every class).
 
+   Fix 1105ad0 (cls([]) gives an empty object) makes construction full strength too.
+
    FULL STATEMENT over all operations (still false of the faithful model, kept visible):
      forall C st ops, run (m_step C) st ops = run s_step st ops.
-   It fails for two remaining root causes, each with a _refuted witness below; everything else is under C10_run_refines:
-     (2) cls([]) evaluates arg[0]  (SE3([]), cls([e for e in x]) on an empty x),
-     (4) the guards test len(x) > 1, so an empty object passes as "one value".                                     *)
+   It fails for ONE remaining root cause (C10_empty_operand_refuted); everything else is under C10_run_refines:
+     the guards of __setitem__/append/insert test len(x) > 1, so an empty object passes as "one value".          *)
 From Coq Require Import ZArith List Lia Bool.
 From SM Require Import Model.C10_PyList Model.C10_SMList.
 Import ListNotations.
@@ -95,7 +96,7 @@ Proof. intros. cbn [m_step]. rewrite m_iter_spec. reflexivity. Qed.
 Print Assumptions C10_iter.
 
 (* ---- every operation, where the code is right.  op_ok excludes exactly: an empty object as the value of
-        setitem/append/insert, construction from an empty list *)
+        setitem/append/insert *)
 Theorem C10_step_refines : forall C st o, op_ok C st o = true -> m_step C st o = s_step st o.
 Proof. exact step_refines. Qed.
 Print Assumptions C10_step_refines.
@@ -136,10 +137,23 @@ Theorem C10_empty_operand_refuted : exists st,
 Proof. exists [1;2;3]. vm_compute. repeat split; discriminate. Qed.
 Print Assumptions C10_empty_operand_refuted.
 
-Theorem C10_empty_construction_refuted :
-  m_step SE3like [] CtorIter <> s_step [] CtorIter /\ m_step SE3like [1] (CtorFrom []) <> s_step [1] (CtorFrom []).
-Proof. vm_compute. split; discriminate. Qed.
-Print Assumptions C10_empty_construction_refuted.
+(* ---- construction, FULL STRENGTH: from the object's own elements (iteration + constructor from a list of objects),
+        from any list of single-valued objects (the empty list included), copy constructor, Alloc, Empty *)
+Theorem C10_construction_full : forall C st ts n,
+  m_step C st CtorIter = s_step st CtorIter /\ m_step C st CtorIter = (st, Ok NoneV) /\
+  m_step C st (CtorFrom ts) = (ts, Ok NoneV) /\ m_step C st (CtorFrom ts) = s_step st (CtorFrom ts) /\
+  m_step C st CtorCopy = (st, Ok NoneV) /\ m_step C st (Alloc n) = (py_repeat 0 n, Ok NoneV) /\ m_step C st Empty = ([], Ok NoneV).
+Proof.
+  intros C st ts n. assert (H : m_step C st CtorIter = (st, Ok NoneV)).
+  { cbn [m_step]. rewrite m_iter_spec, map_obj_A_single. reflexivity. }
+  rewrite H. repeat split.
+Qed.
+Print Assumptions C10_construction_full.
+
+Example C10_construction_ex :
+  m_step SE3like [] CtorIter = ([], Ok NoneV) /\ m_step SE3like [1] (CtorFrom []) = ([], Ok NoneV) /\
+  m_step SVlike [4;5] CtorIter = ([4;5], Ok NoneV) /\ m_step SE3like [1] (Alloc 3) = ([0;0;0], Ok NoneV).
+Proof. vm_compute. repeat split. Qed.
 
 (* ---- a failed operation leaves the object unchanged: every operation, every state, every class, no guard *)
 Theorem C10_failed_op_unchanged : forall C st o e, snd (m_step C st o) = Raise e -> fst (m_step C st o) = st.
